@@ -98,7 +98,7 @@ pub fn pipeline_invariant(slot: &mut Slot, st: &mut Stats) -> Option<Violation> 
 /// Size x quantizer sweep: intra pictures of every width x height up to `max`
 /// (Sorenson custom size), quantizers cycling through 1..31.
 fn sweep(max: u16, part: u16, parts: u16) -> Session {
-    let mut s = Session { note: format!("size sweep 1..={max} (part {part}/{parts})"), pics: vec![], events: vec![Ev::New { d: 0, opts: 1 }], max_chunk: 0 };
+    let mut s = Session { note: format!("size sweep 1..={max} (part {part}/{parts})"), pics: vec![], events: vec![Ev::New { d: 0, opts: 1 }], max_chunk: 0, screen: 0 };
     let mut rng = Rng::new(0xC13 + part as u64);
     let mut cfg = GenCfg::draw(&mut rng, &[0]);
     cfg.density = 0;
@@ -125,6 +125,28 @@ fn sweep(max: u16, part: u16, parts: u16) -> Session {
     s
 }
 
+/// One very large intra picture.
+fn huge_session(w: u16, h: u16, q: u8) -> Session {
+    let mut rng = Rng::new(0xC13_B16 ^ ((w as u64) << 16) ^ h as u64);
+    let mut cfg = GenCfg::draw(&mut rng, &[0]);
+    cfg.density = 0;
+    cfg.pei16 = 0;
+    cfg.stuff16 = 0;
+    // every macroblock is coded (an intra picture that ends early is rejected for lack
+    // of a reference): INTRA, DC only, about 7 bytes per macroblock
+    let mut spec = gen_picture(&mut rng, &cfg, Flavour::Sorenson { version: 0, size_code: 1 }, PType::I, w, h, 0);
+    spec.quant = q;
+    let (pp, _) = PlanPic::from_spec(spec, vec![], "valid picture (very large)");
+    let len = pp.bytes.len();
+    Session {
+        note: format!("huge picture {w}x{h}"),
+        pics: vec![pp],
+        events: vec![Ev::New { d: 0, opts: 1 }, Ev::Reader { d: 0 }, Ev::Feed { d: 0, pic: 0, from: 0, to: len }, Ev::Decode { d: 0 }],
+        max_chunk: 0,
+        screen: 1 << 27,
+    }
+}
+
 fn strips(long: u16) -> Vec<Session> {
     const SHORT: [u16; 13] = [1, 2, 7, 8, 9, 10, 15, 16, 17, 18, 19, 24, 33];
     let mut out = Vec::new();
@@ -134,7 +156,7 @@ fn strips(long: u16) -> Vec<Session> {
     cfg.pei16 = 0;
     cfg.stuff16 = 0;
     for transposed in [false, true] {
-        let mut s = Session { note: format!("strips up to {long} ({})", if transposed { "tall" } else { "wide" }), pics: vec![], events: vec![Ev::New { d: 0, opts: 1 }], max_chunk: 0 };
+        let mut s = Session { note: format!("strips up to {long} ({})", if transposed { "tall" } else { "wide" }), pics: vec![], events: vec![Ev::New { d: 0, opts: 1 }], max_chunk: 0, screen: 0 };
         let mut q = 0u8;
         for l in 41..=long {
             for sh in SHORT {
@@ -210,6 +232,12 @@ impl Property for C13 {
         // chosen around the block, macroblock and SIMD-group boundaries
         let long = if tier == Tier::Quick { 264 } else { 430 };
         v.extend(strips(long));
+        // a few VERY large valid pictures (beyond 2^24 samples: where f32 / u16 / u32
+        // size arithmetic stops being exact); they fit in memory, so the property covers them
+        let huge: &[(u16, u16)] = if tier == Tier::Quick { &[(4097, 4097)] } else { &[(4097, 4097), (4096, 4100), (8193, 2049), (2051, 8191), (5793, 5793), (16385, 1025)] };
+        for (i, (w, h)) in huge.iter().enumerate() {
+            v.push(huge_session(*w, *h, 1 + (i as u8 * 7) % 31));
+        }
         v
     }
 }
